@@ -1,4 +1,1066 @@
 package interp
 
-// FS is the engine-native file-system model (see fs_model.go).
-type FS struct{}
+import (
+	"fmt"
+	"go/types"
+	"math/big"
+	"path"
+	"sort"
+	"strings"
+
+	"gosmt/sym"
+
+	"golang.org/x/tools/go/ssa"
+)
+
+// FS is the engine-native file-system model: a namespace of inodes whose contents
+// are sparse pages of byte terms. Sizes, offsets and names are concrete per path;
+// contents are symbolic. Every mutating call gets a sequence number, which is the
+// granularity of process crashes ("every prefix of the file-mutating system calls").
+//
+// Power-loss mode additionally keeps, per inode, the image at its last durability
+// barrier (fsync on the file, or sync()) and the list of later in-place writes; at a
+// power loss each such write is kept or lost under a fresh Boolean, so every loss
+// subset is covered by one query. Namespace and size changes since the barrier fork.
+type FS struct {
+	files   map[string]*inode
+	dirs    map[string]bool
+	nextIno int
+	seq     int      // mutating operations so far
+	log     []string // op log (reported with counterexamples)
+	mutated []string // every path a mutating call touched (C16)
+	// power-loss bookkeeping
+	durableNames map[string]*inode // namespace at the last sync() plus fsync-ed entries
+	durableDirs  map[string]bool
+}
+
+const fsPage = 4096
+
+type inode struct {
+	id    int
+	pages map[int64][]*sym.Term
+	size  int64
+	// power-loss: image at last barrier
+	dPages  map[int64][]*sym.Term
+	dSize   int64
+	pending []pendingWrite
+	synced  bool // has ever been made durable (entry + data)
+}
+
+type pendingWrite struct {
+	off   int64
+	cells []*sym.Term
+	old   []*sym.Term
+	seq   int
+}
+
+type fileHandle struct {
+	ino    *inode
+	pos    int64
+	name   string
+	flags  int64
+	closed bool
+	isDir  bool
+}
+
+type statInfo struct {
+	name  string
+	size  int64
+	isDir bool
+}
+
+func newFS() *FS {
+	return &FS{files: map[string]*inode{}, dirs: map[string]bool{"/": true}, durableNames: map[string]*inode{}, durableDirs: map[string]bool{"/": true}}
+}
+
+func (in *Interp) theFS() *FS {
+	if in.fs == nil {
+		in.fs = newFS()
+	}
+	return in.fs
+}
+
+func (ino *inode) get(off int64) *sym.Term {
+	p := ino.pages[off/fsPage]
+	if p == nil {
+		return nil
+	}
+	return p[off%fsPage]
+}
+
+func (ino *inode) set(off int64, c *sym.Term) {
+	pn := off / fsPage
+	p := ino.pages[pn]
+	if p == nil {
+		if c == nil {
+			return
+		}
+		p = make([]*sym.Term, fsPage)
+		ino.pages[pn] = p
+	}
+	p[off%fsPage] = c
+}
+
+func (fs *FS) newInode() *inode {
+	fs.nextIno++
+	return &inode{id: fs.nextIno, pages: map[int64][]*sym.Term{}, dPages: map[int64][]*sym.Term{}}
+}
+
+func cleanPath(p string) string {
+	if p == "" {
+		return "."
+	}
+	return path.Clean(p)
+}
+
+func (fs *FS) parentExists(p string) bool {
+	d := path.Dir(p)
+	return fs.dirs[d]
+}
+
+// ---- errors
+
+func (in *Interp) ioEOF() IfaceV {
+	p := in.Prog.ImportedPackage("io")
+	if p == nil {
+		panic(unsupported{"package io not loaded"})
+	}
+	o := in.globalObj(p.Var("EOF"))
+	v := in.load(Pointer{O: o}, p.Var("EOF").Type().(*types.Pointer).Elem())
+	return v.(IfaceV)
+}
+
+// pathError builds an error whose text ends like the real *fs.PathError.
+func (in *Interp) pathError(op, p, what string) IfaceV {
+	return in.mkError(op + " " + p + ": " + what)
+}
+
+const (
+	eNOENT  = "no such file or directory"
+	eEXIST  = "file exists"
+	eISDIR  = "is a directory"
+	eNOTDIR = "not a directory"
+	eCLOSED = "file already closed"
+	eNOTEMP = "directory not empty"
+	eINVAL  = "invalid argument"
+)
+
+func (in *Interp) errText(e IfaceV) string {
+	if e.T == nil {
+		return ""
+	}
+	s, _ := in.errorString(e)
+	return s
+}
+
+// ---- crash points
+
+// fsMutate is called before every mutating file-system call. Inside rt.Crashable it
+// is a crash point: the path forks into "the process dies before this call" and
+// "the call happens".
+func (in *Interp) fsMutate(what string, paths ...string) {
+	fs := in.theFS()
+	if in.crashDepth > 0 && in.opts["crash"] != 0 {
+		if in.choice(2) == 1 {
+			fs.log = append(fs.log, fmt.Sprintf("#%d CRASH before %s", fs.seq, what))
+			in.observe["crash_before_op"] = fmt.Sprintf("%d %s", fs.seq, what)
+			in.obsTerms["crash_seq"] = in.B.Int64(int64(fs.seq))
+			panic(crashUnwind{id: fs.seq})
+		}
+	}
+	fs.seq++
+	fs.log = append(fs.log, fmt.Sprintf("#%d %s", fs.seq, what))
+	fs.mutated = append(fs.mutated, paths...)
+}
+
+// ---- handles
+
+func (in *Interp) osFileType() types.Type {
+	return in.errorsPkgType("os", "File")
+}
+
+func (in *Interp) newFileValue(h *fileHandle) Pointer {
+	in.nextObj++
+	o := &Obj{ID: in.nextObj, Label: "os.File " + h.name, Native: h, Typ: in.osFileType()}
+	return Pointer{O: o}
+}
+
+func (in *Interp) handleOf(v Value) (*fileHandle, *iPanic) {
+	p, ok := v.(Pointer)
+	if !ok || p.O == nil {
+		return nil, in.mkPanic("nil-deref", "method call on nil *os.File")
+	}
+	h, ok := p.O.Native.(*fileHandle)
+	if !ok {
+		panic(unsupported{"*os.File not created by the file-system model"})
+	}
+	return h, nil
+}
+
+func (in *Interp) fileInfoValue(st *statInfo) IfaceV {
+	t := in.errorsPkgType("os", "fileStat")
+	in.nextObj++
+	o := &Obj{ID: in.nextObj, Label: "fileStat", Native: st, Typ: t}
+	return IfaceV{T: types.NewPointer(t), V: Pointer{O: o}}
+}
+
+func (in *Interp) dirEntryValue(st *statInfo) IfaceV {
+	t := in.errorsPkgType("os", "unixDirent")
+	in.nextObj++
+	o := &Obj{ID: in.nextObj, Label: "dirent", Native: st, Typ: t}
+	return IfaceV{T: types.NewPointer(t), V: Pointer{O: o}}
+}
+
+const (
+	oWRONLY = 0x1
+	oRDWR   = 0x2
+	oAPPEND = 0x400
+	oCREATE = 0x40
+	oEXCL   = 0x80
+	oTRUNC  = 0x200
+)
+
+func (in *Interp) fsOpen(name string, flags int64) (Value, IfaceV) {
+	fs := in.theFS()
+	p := cleanPath(name)
+	if fs.dirs[p] {
+		if flags&(oWRONLY|oRDWR) != 0 {
+			return Pointer{}, in.pathError("open", name, eISDIR)
+		}
+		return in.newFileValue(&fileHandle{name: name, isDir: true, flags: flags}), IfaceV{}
+	}
+	ino := fs.files[p]
+	if ino == nil {
+		if flags&oCREATE == 0 {
+			return Pointer{}, in.pathError("open", name, eNOENT)
+		}
+		if !fs.parentExists(p) {
+			return Pointer{}, in.pathError("open", name, eNOENT)
+		}
+		in.fsMutate("create "+p, p)
+		ino = fs.newInode()
+		fs.files[p] = ino
+	} else if flags&oCREATE != 0 && flags&oEXCL != 0 {
+		return Pointer{}, in.pathError("open", name, eEXIST)
+	}
+	if flags&oTRUNC != 0 && ino.size > 0 {
+		in.fsMutate("truncate(open) "+p, p)
+		in.fsTruncate(ino, 0)
+	}
+	return in.newFileValue(&fileHandle{ino: ino, name: name, flags: flags}), IfaceV{}
+}
+
+func (in *Interp) fsTruncate(ino *inode, n int64) {
+	if n < ino.size {
+		for pn, pg := range ino.pages {
+			if pn*fsPage >= n {
+				delete(ino.pages, pn)
+			} else if (pn+1)*fsPage > n {
+				for i := n - pn*fsPage; i < fsPage; i++ {
+					pg[i] = nil
+				}
+			}
+		}
+	}
+	ino.size = n
+}
+
+// readCells copies n bytes at off of the inode into the object (nil = zero byte).
+func (in *Interp) fsReadInto(ino *inode, off int64, dst *Obj, doff int, n int) {
+	if n == 0 {
+		return
+	}
+	in.checkMaterialised(dst, doff+n)
+	if !dst.Raw {
+		panic(unsupported{"file read into a non-byte buffer"})
+	}
+	i := 0
+	for i < n {
+		pn := (off + int64(i)) / fsPage
+		po := int((off + int64(i)) % fsPage)
+		k := fsPage - po
+		if k > n-i {
+			k = n - i
+		}
+		pg := ino.pages[pn]
+		if pg == nil {
+			for j := 0; j < k; j++ {
+				dst.Cells[doff+i+j] = nil
+			}
+		} else {
+			copy(dst.Cells[doff+i:doff+i+k], pg[po:po+k])
+		}
+		i += k
+	}
+}
+
+func (in *Interp) fsWriteFrom(ino *inode, off int64, src *Obj, soff int, n int) {
+	if n == 0 {
+		return
+	}
+	in.checkMaterialised(src, soff+n)
+	if !src.Raw {
+		panic(unsupported{"file write from a non-byte buffer"})
+	}
+	pl := in.opts["powerloss"] != 0
+	var pw pendingWrite
+	if pl {
+		pw = pendingWrite{off: off, seq: in.theFS().seq, cells: make([]*sym.Term, n), old: make([]*sym.Term, n)}
+	}
+	for i := 0; i < n; i++ {
+		c := src.Cells[soff+i]
+		if c != nil && c.IsConst() && c.I.Sign() == 0 {
+			c = nil
+		}
+		if pl {
+			pw.old[i] = ino.get(off + int64(i))
+			pw.cells[i] = c
+		}
+		ino.set(off+int64(i), c)
+	}
+	if off+int64(n) > ino.size {
+		ino.size = off + int64(n)
+	}
+	if pl {
+		ino.pending = append(ino.pending, pw)
+	}
+}
+
+func (in *Interp) sliceLenConc(s SliceV, why string) int {
+	return in.conInt(s.Len, why)
+}
+
+func resInt(in *Interp, n int64, err IfaceV) Value {
+	return Tuple{in.B.Int64(n), err}
+}
+
+func init() {
+	// ---------- package-level functions
+	reg("os.OpenFile", func(in *Interp, fn *ssa.Function, a []Value) (Value, *iPanic) {
+		f, err := in.fsOpen(in.argStr(a[0]), in.argInt(a[1]))
+		return Tuple{f, err}, nil
+	})
+	reg("os.Open", func(in *Interp, fn *ssa.Function, a []Value) (Value, *iPanic) {
+		f, err := in.fsOpen(in.argStr(a[0]), 0)
+		return Tuple{f, err}, nil
+	})
+	reg("os.Create", func(in *Interp, fn *ssa.Function, a []Value) (Value, *iPanic) {
+		f, err := in.fsOpen(in.argStr(a[0]), oRDWR|oCREATE|oTRUNC)
+		return Tuple{f, err}, nil
+	})
+	stat := func(in *Interp, fn *ssa.Function, a []Value) (Value, *iPanic) {
+		fs := in.theFS()
+		name := in.argStr(a[0])
+		p := cleanPath(name)
+		if fs.dirs[p] {
+			return Tuple{in.fileInfoValue(&statInfo{name: path.Base(p), isDir: true}), IfaceV{}}, nil
+		}
+		if ino := fs.files[p]; ino != nil {
+			return Tuple{in.fileInfoValue(&statInfo{name: path.Base(p), size: ino.size}), IfaceV{}}, nil
+		}
+		return Tuple{IfaceV{}, in.pathError("stat", name, eNOENT)}, nil
+	}
+	reg("os.Stat", stat)
+	reg("os.Lstat", stat)
+	reg("os.Remove", func(in *Interp, fn *ssa.Function, a []Value) (Value, *iPanic) {
+		fs := in.theFS()
+		name := in.argStr(a[0])
+		p := cleanPath(name)
+		if fs.dirs[p] {
+			for q := range fs.files {
+				if path.Dir(q) == p {
+					return in.pathError("remove", name, eNOTEMP), nil
+				}
+			}
+			for q := range fs.dirs {
+				if q != p && path.Dir(q) == p {
+					return in.pathError("remove", name, eNOTEMP), nil
+				}
+			}
+			in.fsMutate("rmdir "+p, p)
+			delete(fs.dirs, p)
+			return IfaceV{}, nil
+		}
+		if fs.files[p] == nil {
+			return in.pathError("remove", name, eNOENT), nil
+		}
+		in.fsMutate("unlink "+p, p)
+		delete(fs.files, p)
+		return IfaceV{}, nil
+	})
+	reg("os.RemoveAll", func(in *Interp, fn *ssa.Function, a []Value) (Value, *iPanic) {
+		fs := in.theFS()
+		name := in.argStr(a[0])
+		p := cleanPath(name)
+		if !fs.dirs[p] && fs.files[p] == nil {
+			return IfaceV{}, nil
+		}
+		in.fsMutate("removeall "+p, p)
+		delete(fs.files, p)
+		delete(fs.dirs, p)
+		pre := p + "/"
+		for q := range fs.files {
+			if strings.HasPrefix(q, pre) {
+				delete(fs.files, q)
+			}
+		}
+		for q := range fs.dirs {
+			if strings.HasPrefix(q, pre) {
+				delete(fs.dirs, q)
+			}
+		}
+		return IfaceV{}, nil
+	})
+	reg("os.Rename", func(in *Interp, fn *ssa.Function, a []Value) (Value, *iPanic) {
+		fs := in.theFS()
+		from, to := cleanPath(in.argStr(a[0])), cleanPath(in.argStr(a[1]))
+		if fs.dirs[from] {
+			panic(unsupported{"rename of a directory"})
+		}
+		ino := fs.files[from]
+		if ino == nil {
+			return in.mkError("rename " + from + " " + to + ": " + eNOENT), nil
+		}
+		if !fs.parentExists(to) {
+			return in.mkError("rename " + from + " " + to + ": " + eNOENT), nil
+		}
+		in.fsMutate("rename "+from+" -> "+to, from, to)
+		delete(fs.files, from)
+		fs.files[to] = ino
+		return IfaceV{}, nil
+	})
+	reg("os.Mkdir", func(in *Interp, fn *ssa.Function, a []Value) (Value, *iPanic) {
+		fs := in.theFS()
+		name := in.argStr(a[0])
+		p := cleanPath(name)
+		if fs.dirs[p] || fs.files[p] != nil {
+			return in.pathError("mkdir", name, eEXIST), nil
+		}
+		if !fs.parentExists(p) {
+			return in.pathError("mkdir", name, eNOENT), nil
+		}
+		in.fsMutate("mkdir "+p, p)
+		fs.dirs[p] = true
+		return IfaceV{}, nil
+	})
+	reg("os.MkdirAll", func(in *Interp, fn *ssa.Function, a []Value) (Value, *iPanic) {
+		fs := in.theFS()
+		name := in.argStr(a[0])
+		p := cleanPath(name)
+		if fs.files[p] != nil {
+			return in.pathError("mkdir", name, eNOTDIR), nil
+		}
+		var todo []string
+		for q := p; !fs.dirs[q]; q = path.Dir(q) {
+			if fs.files[q] != nil {
+				return in.pathError("mkdir", name, eNOTDIR), nil
+			}
+			todo = append(todo, q)
+			if q == "/" || q == "." {
+				break
+			}
+		}
+		for i := len(todo) - 1; i >= 0; i-- {
+			in.fsMutate("mkdir "+todo[i], todo[i])
+			fs.dirs[todo[i]] = true
+		}
+		return IfaceV{}, nil
+	})
+	reg("os.ReadDir", func(in *Interp, fn *ssa.Function, a []Value) (Value, *iPanic) {
+		fs := in.theFS()
+		name := in.argStr(a[0])
+		p := cleanPath(name)
+		rt := fn.Signature.Results().At(0).Type()
+		if !fs.dirs[p] {
+			return Tuple{in.zero(rt), in.pathError("open", name, eNOENT)}, nil
+		}
+		var ents []*statInfo
+		for q, ino := range fs.files {
+			if path.Dir(q) == p {
+				ents = append(ents, &statInfo{name: path.Base(q), size: ino.size})
+			}
+		}
+		for q := range fs.dirs {
+			if q != p && path.Dir(q) == p {
+				ents = append(ents, &statInfo{name: path.Base(q), isDir: true})
+			}
+		}
+		sort.Slice(ents, func(i, j int) bool { return ents[i].name < ents[j].name })
+		et := under(rt).(*types.Slice).Elem()
+		o := in.newArrayObj(et, len(ents), "ReadDir")
+		for i, e := range ents {
+			o.Slots[i] = in.dirEntryValue(e)
+		}
+		n := in.B.Int64(int64(len(ents)))
+		return Tuple{SliceV{O: o, Len: n, Cap: n}, IfaceV{}}, nil
+	})
+	reg("os.ReadFile", func(in *Interp, fn *ssa.Function, a []Value) (Value, *iPanic) {
+		fs := in.theFS()
+		name := in.argStr(a[0])
+		ino := fs.files[cleanPath(name)]
+		if ino == nil {
+			return Tuple{SliceV{Len: in.B.Int64(0), Cap: in.B.Int64(0)}, in.pathError("open", name, eNOENT)}, nil
+		}
+		o := in.newArrayObj(types.Typ[types.Uint8], int(ino.size), "ReadFile")
+		in.fsReadInto(ino, 0, o, 0, int(ino.size))
+		n := in.B.Int64(ino.size)
+		return Tuple{SliceV{O: o, Len: n, Cap: n}, IfaceV{}}, nil
+	})
+	reg("os.IsNotExist", func(in *Interp, fn *ssa.Function, a []Value) (Value, *iPanic) {
+		return in.B.Bool(strings.HasSuffix(in.errText(a[0].(IfaceV)), eNOENT)), nil
+	})
+	reg("os.IsExist", func(in *Interp, fn *ssa.Function, a []Value) (Value, *iPanic) {
+		t := in.errText(a[0].(IfaceV))
+		return in.B.Bool(strings.HasSuffix(t, eEXIST) || strings.HasSuffix(t, eNOTEMP)), nil
+	})
+	reg("os.Getpid", func(in *Interp, fn *ssa.Function, a []Value) (Value, *iPanic) { return in.B.Int64(4242), nil })
+	reg("syscall.Sync", func(in *Interp, fn *ssa.Function, a []Value) (Value, *iPanic) {
+		in.fsMutate("sync()")
+		in.theFS().barrierAll()
+		return nil, nil
+	})
+
+	// ---------- *os.File
+	F := "(*os.File)."
+	reg(F+"Name", func(in *Interp, fn *ssa.Function, a []Value) (Value, *iPanic) {
+		h, ip := in.handleOf(a[0])
+		if ip != nil {
+			return nil, ip
+		}
+		return in.mkString(h.name), nil
+	})
+	reg(F+"Close", func(in *Interp, fn *ssa.Function, a []Value) (Value, *iPanic) {
+		p, _ := a[0].(Pointer)
+		if p.O == nil {
+			return in.mkError("invalid argument"), nil
+		}
+		h, _ := in.handleOf(a[0])
+		if h.closed {
+			return in.pathError("close", h.name, eCLOSED), nil
+		}
+		h.closed = true
+		return IfaceV{}, nil
+	})
+	reg(F+"Sync", func(in *Interp, fn *ssa.Function, a []Value) (Value, *iPanic) {
+		h, ip := in.handleOf(a[0])
+		if ip != nil {
+			return nil, ip
+		}
+		if h.closed {
+			return in.pathError("sync", h.name, eCLOSED), nil
+		}
+		in.fsMutate("fsync " + h.name)
+		if h.ino != nil {
+			in.theFS().barrier(h.ino, cleanPath(h.name))
+		}
+		return IfaceV{}, nil
+	})
+	reg(F+"Stat", func(in *Interp, fn *ssa.Function, a []Value) (Value, *iPanic) {
+		h, ip := in.handleOf(a[0])
+		if ip != nil {
+			return nil, ip
+		}
+		if h.closed {
+			return Tuple{IfaceV{}, in.pathError("stat", h.name, eCLOSED)}, nil
+		}
+		if h.isDir {
+			return Tuple{in.fileInfoValue(&statInfo{name: path.Base(h.name), isDir: true}), IfaceV{}}, nil
+		}
+		return Tuple{in.fileInfoValue(&statInfo{name: path.Base(h.name), size: h.ino.size}), IfaceV{}}, nil
+	})
+	reg(F+"Seek", func(in *Interp, fn *ssa.Function, a []Value) (Value, *iPanic) {
+		h, ip := in.handleOf(a[0])
+		if ip != nil {
+			return nil, ip
+		}
+		if h.closed {
+			return resInt(in, 0, in.pathError("seek", h.name, eCLOSED)), nil
+		}
+		off := in.concretize(a[1].(*sym.Term), "seek offset")
+		wh := in.argInt(a[2])
+		var base int64
+		switch wh {
+		case 0:
+		case 1:
+			base = h.pos
+		case 2:
+			base = h.ino.size
+		default:
+			return resInt(in, 0, in.pathError("seek", h.name, eINVAL)), nil
+		}
+		np := new(big.Int).Add(big.NewInt(base), off)
+		if np.Sign() < 0 || !np.IsInt64() || np.Int64() > 1<<50 {
+			return resInt(in, 0, in.pathError("seek", h.name, eINVAL)), nil
+		}
+		h.pos = np.Int64()
+		return resInt(in, h.pos, IfaceV{}), nil
+	})
+	read := func(in *Interp, a []Value, at bool) (Value, *iPanic) {
+		h, ip := in.handleOf(a[0])
+		if ip != nil {
+			return nil, ip
+		}
+		if h.closed {
+			return resInt(in, 0, in.pathError("read", h.name, eCLOSED)), nil
+		}
+		if h.isDir {
+			return resInt(in, 0, in.pathError("read", h.name, eISDIR)), nil
+		}
+		b := a[1].(SliceV)
+		pos := h.pos
+		if at {
+			o := in.concretize(a[2].(*sym.Term), "ReadAt offset")
+			if o.Sign() < 0 || !o.IsInt64() {
+				return resInt(in, 0, in.mkError("os: negative offset")), nil
+			}
+			pos = o.Int64()
+		}
+		avail := h.ino.size - pos
+		if avail < 0 {
+			avail = 0
+		}
+		B := in.B
+		av := B.Int64(avail)
+		want := b.Len
+		n := in.conInt(B.Ite(B.Le(want, av), want, av), "read count")
+		if n == 0 {
+			// len(b) == 0 -> (0, nil); at end of file -> (0, EOF)
+			if in.branch(B.Eq(want, B.Int64(0))) {
+				return resInt(in, 0, IfaceV{}), nil
+			}
+			return resInt(in, 0, in.ioEOF()), nil
+		}
+		in.fsReadInto(h.ino, pos, b.O, b.Off, n)
+		if !at {
+			h.pos += int64(n)
+			return resInt(in, int64(n), IfaceV{}), nil
+		}
+		// ReadAt returns io.EOF when fewer bytes than requested were available
+		if in.branch(B.Lt(B.Int64(int64(n)), want)) {
+			return resInt(in, int64(n), in.ioEOF()), nil
+		}
+		return resInt(in, int64(n), IfaceV{}), nil
+	}
+	reg(F+"Read", func(in *Interp, fn *ssa.Function, a []Value) (Value, *iPanic) { return read(in, a, false) })
+	reg(F+"ReadAt", func(in *Interp, fn *ssa.Function, a []Value) (Value, *iPanic) { return read(in, a, true) })
+	write := func(in *Interp, a []Value, at bool, str bool) (Value, *iPanic) {
+		h, ip := in.handleOf(a[0])
+		if ip != nil {
+			return nil, ip
+		}
+		if h.closed {
+			return resInt(in, 0, in.pathError("write", h.name, eCLOSED)), nil
+		}
+		if h.isDir || h.flags&(oWRONLY|oRDWR) == 0 {
+			return resInt(in, 0, in.pathError("write", h.name, "bad file descriptor")), nil
+		}
+		var b SliceV
+		if str {
+			cells := in.strCells(a[1].(*StringV))
+			b = in.bytesSlice(cells, "WriteString")
+		} else {
+			b = a[1].(SliceV)
+		}
+		n := in.sliceLenConc(b, "write length")
+		pos := h.pos
+		if at {
+			o := in.concretize(a[2].(*sym.Term), "WriteAt offset")
+			if o.Sign() < 0 || !o.IsInt64() || o.Int64() > 1<<50 {
+				return resInt(in, 0, in.mkError("os: negative offset")), nil
+			}
+			pos = o.Int64()
+		} else if h.flags&oAPPEND != 0 {
+			pos = h.ino.size
+		}
+		if n == 0 {
+			return resInt(in, 0, IfaceV{}), nil
+		}
+		in.fsMutate(fmt.Sprintf("write %s off=%d len=%d", cleanPath(h.name), pos, n), cleanPath(h.name))
+		in.fsWriteFrom(h.ino, pos, b.O, b.Off, n)
+		if !at {
+			h.pos = pos + int64(n)
+		}
+		return resInt(in, int64(n), IfaceV{}), nil
+	}
+	reg(F+"Write", func(in *Interp, fn *ssa.Function, a []Value) (Value, *iPanic) { return write(in, a, false, false) })
+	reg(F+"WriteAt", func(in *Interp, fn *ssa.Function, a []Value) (Value, *iPanic) { return write(in, a, true, false) })
+	reg(F+"WriteString", func(in *Interp, fn *ssa.Function, a []Value) (Value, *iPanic) { return write(in, a, false, true) })
+	reg(F+"Truncate", func(in *Interp, fn *ssa.Function, a []Value) (Value, *iPanic) {
+		h, ip := in.handleOf(a[0])
+		if ip != nil {
+			return nil, ip
+		}
+		if h.closed {
+			return in.pathError("truncate", h.name, eCLOSED), nil
+		}
+		n := in.concretize(a[1].(*sym.Term), "truncate size")
+		if n.Sign() < 0 || !n.IsInt64() || n.Int64() > 1<<50 {
+			return in.pathError("truncate", h.name, eINVAL), nil
+		}
+		in.fsMutate(fmt.Sprintf("truncate %s %d", cleanPath(h.name), n.Int64()), cleanPath(h.name))
+		in.fsTruncate(h.ino, n.Int64())
+		return IfaceV{}, nil
+	})
+	reg(F+"Readdir", nil)
+	delete(intrinsics, F+"Readdir")
+
+	// ---------- FileInfo / DirEntry
+	S := "(*os.fileStat)."
+	stOf := func(v Value) *statInfo { return v.(Pointer).O.Native.(*statInfo) }
+	reg(S+"Size", func(in *Interp, fn *ssa.Function, a []Value) (Value, *iPanic) { return in.B.Int64(stOf(a[0]).size), nil })
+	reg(S+"Name", func(in *Interp, fn *ssa.Function, a []Value) (Value, *iPanic) { return in.mkString(stOf(a[0]).name), nil })
+	reg(S+"IsDir", func(in *Interp, fn *ssa.Function, a []Value) (Value, *iPanic) { return in.B.Bool(stOf(a[0]).isDir), nil })
+	reg(S+"Mode", func(in *Interp, fn *ssa.Function, a []Value) (Value, *iPanic) {
+		if stOf(a[0]).isDir {
+			return in.B.Int64(1<<31 | 0o755), nil
+		}
+		return in.B.Int64(0o644), nil
+	})
+	D := "(*os.unixDirent)."
+	reg(D+"Name", func(in *Interp, fn *ssa.Function, a []Value) (Value, *iPanic) { return in.mkString(stOf(a[0]).name), nil })
+	reg(D+"IsDir", func(in *Interp, fn *ssa.Function, a []Value) (Value, *iPanic) { return in.B.Bool(stOf(a[0]).isDir), nil })
+	reg(D+"Info", func(in *Interp, fn *ssa.Function, a []Value) (Value, *iPanic) {
+		return Tuple{in.fileInfoValue(stOf(a[0])), IfaceV{}}, nil
+	})
+	reg(D+"Type", func(in *Interp, fn *ssa.Function, a []Value) (Value, *iPanic) {
+		if stOf(a[0]).isDir {
+			return in.B.Int64(1 << 31), nil
+		}
+		return in.B.Int64(0), nil
+	})
+}
+
+// ---- durability barriers (power-loss mode)
+
+func (fs *FS) barrier(ino *inode, name string) {
+	ino.dPages = map[int64][]*sym.Term{}
+	for pn, pg := range ino.pages {
+		ino.dPages[pn] = append([]*sym.Term(nil), pg...)
+	}
+	ino.dSize = ino.size
+	ino.pending = nil
+	ino.synced = true
+	if fs.files[name] == ino {
+		fs.durableNames[name] = ino
+	}
+}
+
+func (fs *FS) barrierAll() {
+	fs.durableNames = map[string]*inode{}
+	for name, ino := range fs.files {
+		fs.barrier(ino, name)
+		fs.durableNames[name] = ino
+	}
+	fs.durableDirs = map[string]bool{}
+	for d := range fs.dirs {
+		fs.durableDirs[d] = true
+	}
+}
+
+// powerLoss replaces the volatile state by a durable state: for every inode the
+// image at its last barrier overlaid with an arbitrary subset of the in-place writes
+// issued since (one fresh Boolean per write, so all subsets are covered symbolically);
+// files created, renamed or removed since the last barrier fork on kept/lost.
+func (in *Interp) powerLoss() {
+	fs := in.theFS()
+	B := in.B
+	// namespace: union of durable and current names
+	names := map[string]bool{}
+	for n := range fs.files {
+		names[n] = true
+	}
+	for n := range fs.durableNames {
+		names[n] = true
+	}
+	sorted := make([]string, 0, len(names))
+	for n := range names {
+		sorted = append(sorted, n)
+	}
+	sort.Strings(sorted)
+	newFiles := map[string]*inode{}
+	for _, n := range sorted {
+		cur, dur := fs.files[n], fs.durableNames[n]
+		var pick *inode
+		switch {
+		case cur == dur:
+			pick = cur
+		case cur != nil && dur == nil: // created (or renamed to) since the barrier
+			if in.choice(2) == 0 {
+				pick = cur
+			}
+		case cur == nil && dur != nil: // removed (or renamed away) since the barrier
+			if in.choice(2) == 0 {
+				pick = dur
+			}
+		default:
+			if in.choice(2) == 0 {
+				pick = cur
+			} else {
+				pick = dur
+			}
+		}
+		if pick != nil {
+			newFiles[n] = pick
+		}
+	}
+	// contents
+	done := map[*inode]bool{}
+	for _, n := range sorted {
+		ino := newFiles[n]
+		if ino == nil || done[ino] {
+			continue
+		}
+		done[ino] = true
+		if len(ino.pending) == 0 && ino.size == ino.dSize {
+			continue
+		}
+		// size: a grown file keeps its new size or falls back to the durable one
+		size := ino.size
+		if ino.size != ino.dSize && in.choice(2) == 1 {
+			size = ino.dSize
+		}
+		pages := map[int64][]*sym.Term{}
+		for pn, pg := range ino.dPages {
+			pages[pn] = append([]*sym.Term(nil), pg...)
+		}
+		tmp := &inode{pages: pages}
+		for wi, w := range ino.pending {
+			kept := in.input(fmt.Sprintf("kept_ino%d_w%d", ino.id, wi), sym.SBool, nil, nil)
+			for i, c := range w.cells {
+				off := w.off + int64(i)
+				old := tmp.get(off)
+				nc, oc := c, old
+				if nc == nil {
+					nc = in.zeroB
+				}
+				if oc == nil {
+					oc = in.zeroB
+				}
+				tmp.set(off, B.Ite(kept, nc, oc))
+			}
+		}
+		ino.pages = tmp.pages
+		in.fsTruncate(ino, size)
+		ino.size = size
+		ino.pending = nil
+	}
+	fs.files = newFiles
+	for d := range fs.dirs {
+		if !fs.durableDirs[d] {
+			// directories created since the last sync(): kept when something durable lives below
+			keep := false
+			for n := range newFiles {
+				if strings.HasPrefix(n, d+"/") {
+					keep = true
+				}
+			}
+			if !keep && in.choice(2) == 1 {
+				delete(fs.dirs, d)
+			}
+		}
+	}
+	fs.log = append(fs.log, "POWER LOSS")
+}
+
+// ---------- scenario intrinsics (rt.TempDir, rt.Crashable, rt.PowerLoss) and disk images
+
+type fsSnapshot struct {
+	dirs  []string
+	files map[string]*inode // deep copies
+}
+
+func (fs *FS) snapshot() *fsSnapshot {
+	sn := &fsSnapshot{files: map[string]*inode{}}
+	for d := range fs.dirs {
+		sn.dirs = append(sn.dirs, d)
+	}
+	sort.Strings(sn.dirs)
+	for n, ino := range fs.files {
+		c := &inode{id: ino.id, size: ino.size, pages: map[int64][]*sym.Term{}}
+		for pn, pg := range ino.pages {
+			c.pages[pn] = append([]*sym.Term(nil), pg...)
+		}
+		sn.files[n] = c
+	}
+	return sn
+}
+
+// imageJSON renders a snapshot under a model as the JSON understood by rt.restoreImage.
+func (in *Interp) imageJSON(sn *fsSnapshot, model map[string]string) string {
+	type fileJS struct {
+		Size   int64       `json:"size"`
+		Chunks [][2]string `json:"chunks"`
+	}
+	// collect symbolic cells
+	var syms []*sym.Term
+	seen := map[int]bool{}
+	for _, ino := range sn.files {
+		for _, pg := range ino.pages {
+			for _, c := range pg {
+				if c != nil && !c.IsConst() && !seen[c.ID] {
+					seen[c.ID] = true
+					syms = append(syms, c)
+				}
+			}
+		}
+	}
+	vals := in.evalCells(syms, model)
+	var sb strings.Builder
+	sb.WriteString(`{"dirs":[`)
+	first := true
+	for _, d := range sn.dirs {
+		if d == "/" {
+			continue
+		}
+		if !first {
+			sb.WriteByte(',')
+		}
+		first = false
+		fmt.Fprintf(&sb, "%q", d)
+	}
+	sb.WriteString(`],"files":{`)
+	names := make([]string, 0, len(sn.files))
+	for n := range sn.files {
+		names = append(names, n)
+	}
+	sort.Strings(names)
+	for fi, n := range names {
+		ino := sn.files[n]
+		if fi > 0 {
+			sb.WriteByte(',')
+		}
+		fmt.Fprintf(&sb, "%q:{\"size\":%d,\"chunks\":[", n, ino.size)
+		pns := make([]int64, 0, len(ino.pages))
+		for pn := range ino.pages {
+			pns = append(pns, pn)
+		}
+		sort.Slice(pns, func(i, j int) bool { return pns[i] < pns[j] })
+		firstC := true
+		for _, pn := range pns {
+			pg := ino.pages[pn]
+			buf := make([]byte, fsPage)
+			any := false
+			for i, c := range pg {
+				if c == nil {
+					continue
+				}
+				var v int64
+				if c.IsConst() {
+					v = c.I.Int64()
+				} else {
+					v = vals[c.ID]
+				}
+				buf[i] = byte(v)
+				if v != 0 {
+					any = true
+				}
+			}
+			if !any {
+				continue
+			}
+			// trim zero prefix/suffix
+			lo, hi := 0, fsPage
+			for lo < hi && buf[lo] == 0 {
+				lo++
+			}
+			for hi > lo && buf[hi-1] == 0 {
+				hi--
+			}
+			if !firstC {
+				sb.WriteByte(',')
+			}
+			firstC = false
+			fmt.Fprintf(&sb, "[\"%d\",\"%x\"]", pn*fsPage+int64(lo), buf[lo:hi])
+		}
+		sb.WriteString("]}")
+	}
+	sb.WriteString("}}")
+	return sb.String()
+}
+
+// evalCells evaluates Int terms under the model (inputs pinned), in chunks.
+func (in *Interp) evalCells(ts []*sym.Term, model map[string]string) map[int]int64 {
+	out := map[int]int64{}
+	if len(ts) == 0 {
+		return out
+	}
+	pin := in.B.True
+	for _, iv := range in.inputs {
+		if v, ok := model[iv.Name]; ok {
+			if c := in.constFromString(v, iv.T.Sort); c != nil {
+				pin = in.B.And(pin, in.B.Eq(iv.T, c))
+			}
+		}
+	}
+	pc := append(append([]*sym.Term{}, in.pc...), pin)
+	const chunk = 400
+	for i := 0; i < len(ts); i += chunk {
+		j := i + chunk
+		if j > len(ts) {
+			j = len(ts)
+		}
+		if in.checkPC(pc, nil) != sym.Sat {
+			return out
+		}
+		m := in.MS.GetValues(ts[i:j])
+		for _, t := range ts[i:j] {
+			key := t.Name
+			if t.Op != sym.OVar {
+				key = fmt.Sprintf("t!%d", t.ID)
+			}
+			if v, ok := m[key]; ok {
+				if x, ok := new(big.Int).SetString(v, 10); ok {
+					out[t.ID] = x.Int64()
+				}
+			}
+		}
+	}
+	return out
+}
+
+func init() {
+	reg(rtPkg+"TempDir", func(in *Interp, fn *ssa.Function, a []Value) (Value, *iPanic) {
+		fs := in.theFS()
+		fs.dirs["/vr"] = true
+		fs.durableDirs["/vr"] = true
+		return in.mkString("/vr"), nil
+	})
+	reg(rtPkg+"Cleanup", func(in *Interp, fn *ssa.Function, a []Value) (Value, *iPanic) { return nil, nil })
+	reg(rtPkg+"Crashable", func(in *Interp, fn *ssa.Function, a []Value) (res Value, ip *iPanic) {
+		tag := in.argStr(a[0])
+		clo, _ := a[1].(*Closure)
+		depth := len(in.stack)
+		in.crashDepth++
+		crashed := false
+		func() {
+			defer func() {
+				if r := recover(); r != nil {
+					if _, ok := r.(crashUnwind); ok {
+						crashed = true
+						in.stack = in.stack[:depth]
+						return
+					}
+					panic(r)
+				}
+			}()
+			_, ip = in.callClosure(clo, nil)
+		}()
+		in.crashDepth--
+		if ip != nil {
+			return nil, ip
+		}
+		if crashed {
+			if in.opts["powerloss"] != 0 {
+				in.powerLoss()
+			}
+			in.extra["fsimg:"+tag] = in.theFS().snapshot()
+		}
+		// open handles of the dead process are gone; nothing to do: objects are unreachable
+		return in.B.Bool(crashed), nil
+	})
+	reg(rtPkg+"PowerLoss", func(in *Interp, fn *ssa.Function, a []Value) (Value, *iPanic) {
+		in.powerLoss()
+		in.extra["fsimg:"+in.argStr(a[0])] = in.theFS().snapshot()
+		return nil, nil
+	})
+}
